@@ -20,6 +20,8 @@ CONSTANTS D,          \* dimension 2..4 (3 for kind G)
           GenKinds,   \* subset of {"B","S","U","I","G"}
           FirstA,     \* values of the first component of the first vector (splits a big lattice over several TLC runs)
           SweepDivisors, \* divisors of the small integer sweep (kind W), e.g. 1 .. 255
+          XComps, XCompsU, XDens, \* kind X: component values (signed pairs / pairs with an unsigned operand), denominators of the floating side
+          Histories,  \* kind H: number of position patterns per solid for the NormalAttrib histories
           Jitters,    \* number of jittered (non-affine) position sets per solid (kind G)
           MatEntries, \* entries of the affine maps (kind G)
           Stride, Seed \* kind G: every Stride-th matrix, offset Seed % Stride
@@ -38,6 +40,12 @@ One_m1 == {-1}
 One_z0 == {0}
 One_p1 == {1}
 One_p2 == {2}
+XC3 == {-3, 1, 2}
+XC3U == {0, 1, 3}
+XC2 == {-1, 2}
+XC2U == {1, 2}
+XC4 == {-3, -1, 2, 3}
+XC4U == {0, 1, 2, 3}
 Div255 == 1 .. 255
 DivOdd == {s \in 1 .. 255 : s % 2 = 1 \/ s % 7 = 0}
 Mat11 == -1 .. 1
@@ -128,7 +136,35 @@ CasesJ == IF "G" \notin GenKinds THEN {} ELSE
 CasesG == IF "G" \notin GenKinds THEN {} ELSE CasesJ \cup UNION { { CaseG(sh, mt, vt, m, t) : mt \in MeshTypesOf(sh), vt \in {"d", "f"}, m \in Mats, t \in Shifts } :
                   sh \in Shapes }
 
-Cases == CasesB \cup CasesS \cup CasesU \cup CasesI \cup CasesW
+(* ------------------ kind X: operands of two different scalar types --------------------- *)
+DensOf(t) == IF t \in FloatTypes THEN XDens ELSE {1}
+XGroups(tl, tr, a, dl, b, dr) ==
+  LET ct == CommonType(tl, tr)
+      subUB == tl = "u" /\ ct \in FloatTypes /\ \E i \in 1 .. D : RTrunc(RSub(Rat(a[i], dl), Rat(b[i], dr))) < 0   \* negative double -> unsigned
+  IN <<"ring">> \o (IF subUB THEN <<>> ELSE <<"sub">>) \o (IF NoZero(b) THEN <<"div">> ELSE <<>>) \o (IF b[1] # 0 THEN <<"sdiv">> ELSE <<>>)
+CaseX(tl, tr, a, dl, b, dr) ==
+  [k |-> "X", d |-> D, tl |-> tl, tr |-> tr, a |-> a, dl |-> dl, b |-> b, dr |-> dr, g |-> XGroups(tl, tr, a, dl, b, dr)]
+CasesX == IF "X" \notin GenKinds THEN {} ELSE
+  UNION { LET C == IF "u" \in {p[1], p[2]} THEN XCompsU ELSE XComps IN
+          { CaseX(p[1], p[2], Tup(a), dl, Tup(b), dr) : a \in Vecs(C), b \in Vecs(C), dl \in DensOf(p[1]), dr \in DensOf(p[2]) }
+          : p \in {q \in Types \X Types : q[1] # q[2]} }
+
+(* ------------------ kind H: NormalAttrib histories on ONE attribute object -------------- *)
+(* [first update; move some vertices and / or add a face; second update] with every ordering of         *)
+(* update_vertex_normals (V) / update_face_normals (F); the executor logs the attribute after the       *)
+(* history and, as control, a fresh attribute object updated on the final mesh.                         *)
+MoveSets(sh) == { {1}, {2, 4}, 1 .. Len(BaseOf(sh)) }                     \* 1-based vertex numbers
+ExtraFace(sh) == CASE sh = "cube" -> <<0, 2, 5>> [] sh = "prism" -> <<0, 1, 5>> [] OTHER -> <<>>
+CaseH(sh, mt, vt, j, first, second, ms, addf) ==
+  LET p1 == JitterPos(sh, j)  p2 == JitterPos(sh, j + 17) IN
+  [k |-> "H", d |-> 3, shape |-> sh, mt |-> mt, vt |-> vt, pos |-> p1, first |-> first, second |-> second,
+   moves |-> [i \in 1 .. Len(SetToSeq(ms)) |-> <<SetToSeq(ms)[i] - 1>> \o p2[SetToSeq(ms)[i]]],
+   addface |-> IF addf /\ mt = "poly" THEN ExtraFace(sh) ELSE <<>>]
+CasesH == IF "H" \notin GenKinds THEN {} ELSE
+  UNION { { CaseH(sh, mt, vt, j, f, s2, ms, af) : mt \in MeshTypesOf(sh), vt \in {"d", "f"}, j \in 1 .. Histories,
+            f \in {"V", "F"}, s2 \in {"V", "F"}, ms \in MoveSets(sh), af \in BOOLEAN } : sh \in {"tet", "cube", "prism"} }
+
+Cases == CasesB \cup CasesS \cup CasesU \cup CasesI \cup CasesW \cup CasesX \cup CasesH
 
 (* ------------- laws of the definitions (checked on every case) --------- *)
 LawsB(a, b) ==
@@ -170,11 +206,11 @@ Init == c \in (Cases \cup CasesG)
 Next == UNCHANGED c
 Spec == Init /\ [][Next]_c
 
-LawsHold == c.k # "G" => Laws(c)
+LawsHold == c.k \notin {"G", "H", "X"} => Laws(c)
 EmitCase == PrintT(<<"EMIT", ToJson(c)>>)
 
 (* the table of operations, printed once *)
 OpsTable ==
-  [k \in Kinds |-> [g \in GroupsOf(k) |-> [t \in Types \cup {"m"} |-> Seqify(OpsFor(k, g, t, D))]]]
+  [k \in Kinds |-> [g \in GroupsOf(k) |-> [t \in Types \cup {"m", "x"} |-> Seqify(OpsFor(k, g, t, D))]]]
 ASSUME PrintT(<<"OPS", ToJson([d |-> D, ops |-> OpsTable])>>)
 =============================================================================
